@@ -39,6 +39,16 @@ Definition spec_item_text (fwd : bool) (item : bytes) : option bytes :=
     end
   else Some (trim_space item).
 
+(* what an attacker in front of the trusted proxies can do to a list header: add
+   header lines before the genuine ones, and prepend text to the first genuine
+   line, up to a comma *)
+Definition attack_lines (extra : list bytes) (text : option bytes) (lines : list bytes) : list bytes :=
+  extra ++ match text, lines with
+           | Some t, l0 :: rest => (t ++ ","%char :: l0) :: rest
+           | Some t, [] => [t]
+           | None, _ => lines
+           end.
+
 Section Spec.
   Variable A : Type.
   Variable parse : bytes -> pres A.
